@@ -13,6 +13,8 @@ H.append({"name":"H_sign","tiers":T,"scale":"b4","bounds":"B=4; one file of 3B b
 H.append({"name":"H_sign","tiers":T,"scale":"b4","bounds":"B=4; one file 0..3B with short-read slicing","max_seconds":900,"param_sets":[{"n0":a,"slicing":s} for a in range(0,9) for s in (1,2)]})
 H.append({"name":"H_sign","tiers":Q,"scale":"b2","bounds":"signature streams written through the model codecs (both producers), two files",
   "param_sets":[{"n0":a,"n1":b,"slicing":0,"comp":c} for a in (0,3,5) for b in (0,3) for c in (1,2)]})
+H.append({"name":"H_sign","tiers":Q,"max_steps":2000000000,"bounds":"REGIME R (no constant scaled): one or two files of 64 KiB-1, 64 KiB, 64 KiB+1, 128 KiB, 128 KiB+1 and 3 bytes, concrete pseudo-random with symbolic first and last byte; both producers, read-back, validation",
+  "param_sets":[{"n0":a,"n1":b,"slicing":0,"real":1} for (a,b) in ((8+2,-1),(8+3,3+3),(8+4,16+3),(16+4,8+2))]})
 json.dump({"property":"C04","package":"c04","scale":scale,"harnesses":H,
  "stubs":["os -> in-memory file system model","crypto/md5 -> injective model (strong hash = block content + length)","protobuf/wire -> tag-faithful codec model","goroutines (diff/sign/reader per file, validator) under the deterministic run-until-block schedule"],
  "outside":["compressed signature streams (gzip/brotli codecs are not encodable; only NONE)","block size 64 KiB (declared value scaled)","schedules other than the canonical one (C15/C16)"]},open("config.json","w"),indent=1)
